@@ -75,6 +75,32 @@ def expected(name, L, U, n):
                 if KIND[name] == 2:
                     W[j][i] = -7
             exp["UW%d" % k] = flat(W)
+        # assignment of X(i,j) = 2000+10i+j to the sub-matrix view: the stored part of the block, mirrored for symmetric kinds
+        kk = KIND[name]
+        UA = [r[:] for r in D]
+        X5 = lambda i, j: 2000 + 10 * i + j
+        for i in range(m):
+            for j in range(m):
+                if kk == 0:
+                    v = X5(i, j)
+                elif kk == 1:
+                    if not (-L <= j - i <= U):
+                        continue
+                    v = X5(i, j)
+                elif name == "SymLo":
+                    v = X5(max(i, j), min(i, j))
+                elif name == "SymUp":
+                    v = X5(min(i, j), max(i, j))
+                elif kk == 3:
+                    if i < j:
+                        continue
+                    v = X5(i, j)
+                else:
+                    if i > j:
+                        continue
+                    v = X5(i, j)
+                UA[a + i][a + j] = v
+        exp["UA"] = flat(UA)
     return exp, D
 
 
